@@ -521,7 +521,14 @@ func c14Audit(c *eng.Ctx) {
 				return
 			}
 			n++
-			c.Check(sinkVal != nil && eng.Same(call.Call.Args[0], sinkVal), "R-C14-7", f, in.Pos(), eng.CallStr(&call.Call), "the encoder writes directly to the sink the Writer was given (one Write per entry, nothing buffered between concurrent requests)", "encoder target "+eng.ValStr(call.Call.Args[0]))
+			// (the very value kept as the sink, or the constructor's own io.Writer argument)
+			direct := sinkVal != nil && eng.Same(call.Call.Args[0], sinkVal)
+			if prm, isP := eng.Origin(call.Call.Args[0]).(*ssa.Parameter); isP && prm.Parent() == f {
+				if _, isIface := prm.Type().Underlying().(*types.Interface); isIface {
+					direct = true
+				}
+			}
+			c.Check(direct, "R-C14-7", f, in.Pos(), eng.CallStr(&call.Call), "the encoder writes directly to the sink the Writer was given (one Write per entry, nothing buffered between concurrent requests)", "encoder target "+eng.ValStr(call.Call.Args[0]))
 		})
 	}
 	if n < 3 {
